@@ -28,7 +28,7 @@ RULE = (
     "in thorough, (value column name) x (row order: identity, reversed, rotation, interleaved) x (column order: "
     "identity, reversed, rotation) x (in memory / CSV text) x (dense / sparse with allow_missing_values); plus "
     "every to_df layout (index or columns, dim_to_columns for each dim, sparse; C / Fortran / strided value buffers) checked row by row and re-imported; every (duplicated row with another value, other row dropped) pair, which must be refused. "
-    "Non-trivial = array with >= 2 entries. Distinct by construction."
+    "one 182 x 182 array (more than 32767 entries; 260 x 260 thorough) in three layouts. Non-trivial = array with >= 2 entries. Distinct by construction."
 )
 ASSUMPTIONS = [
     "values are distinct non-integer floats that cannot be mistaken for items (precondition of the items-only style)",
@@ -40,9 +40,9 @@ LEVEL_TEXT = (
     "Every supported frame layout within the bound is generated from a logical record list, imported with the real "
     "from_df and compared with the records entry by entry; to_df output is checked row by row against the array."
 )
-LEVEL_NOTE = "Trusted: the frame builder (mc/frames.py) and pandas as producer. Bounded dimension pool; int16 index overflow (> 32767 items) is outside the bound."
+LEVEL_NOTE = "Trusted: the frame builder (mc/frames.py) and pandas as producer. Bounded dimension pool; dimensions with more than 32767 ITEMS are outside the bound (arrays with more than 32767 ENTRIES are covered once)."
 
-SETS3_Q = [("G", "S", "T"), ("U", "G", "O"), ("Y", "S", "N"), ("U", "Y", "T"), ("T", "S", "O"), ("S", "T", "U"), ("N", "U", "S"), ("U", "N", "T"), ("T", "N", "I"), ("O", "U", "N"), ("S", "O", "I"), ("I", "T", "S"), ("U", "S", "T")]
+SETS3_Q = [("M", "S", "T"), ("G", "S", "T"), ("U", "G", "O"), ("Y", "S", "N"), ("U", "Y", "T"), ("T", "S", "O"), ("S", "T", "U"), ("N", "U", "S"), ("U", "N", "T"), ("T", "N", "I"), ("O", "U", "N"), ("S", "O", "I"), ("I", "T", "S"), ("U", "S", "T")]
 ROWPERMS = ("id", "rev", "rot2", "interleave")
 COLPERMS = ("id", "rev", "rot1")
 
@@ -95,7 +95,7 @@ def bounds(tier):
 
 
 def units(tier, seed):
-    return [dict(keys=ks, tier=tier, kind="layouts", seed=seed) for ks in dim_sets(tier)] + [dict(keys=ks, tier=tier, kind="to_df", seed=seed) for ks in dim_sets(tier)]
+    return [dict(keys=[], tier=tier, kind="large", seed=seed)] + [dict(keys=ks, tier=tier, kind="layouts", seed=seed) for ks in dim_sets(tier)] + [dict(keys=ks, tier=tier, kind="to_df", seed=seed) for ks in dim_sets(tier)]
 
 
 def excluded(keys, lay):
@@ -106,6 +106,8 @@ def excluded(keys, lay):
             return True
     if lay.get("sparse") and wide is not None:
         return True  # sparse = dropped rows; defined for the long layout
+    if lay.get("medium") == "csv" and "M" in keys:
+        return True  # untyped items of mixed type do not survive CSV text (1990 comes back as text or number for all)
     if lay["header"] == "items-only":
         if lay.get("sparse"):
             # identification "only through their items" needs every item of every dimension to occur
@@ -147,6 +149,20 @@ def run_case(keys, lay):
         bad = np.argwhere(got.values != want)[0]
         return "fail", dict(case=case, tags=tags, what=f"{desc}: entry {tuple(int(i) for i in bad)} imported as {got.values[tuple(bad)]!r}, the row with these labels holds {want[tuple(bad)]!r}", observed=df.head(8).to_string())
     return "imported-faithfully", None
+
+
+def _label(k, v):
+    """label read back from a frame -> the dimension's item (typed dims: declared type; untyped: the item itself)"""
+    name, letter, items, dtype = F.POOL[k]
+    if dtype is not None:
+        return dtype(v)
+    for it in items:
+        if type(it) is type(v) and it == v:
+            return it
+    for it in items:
+        if it == v and not isinstance(it, str) and not isinstance(v, str):
+            return it  # numpy integer vs int
+    return v
 
 
 def run_todf_case(keys, mode):
@@ -194,7 +210,7 @@ def run_todf_case(keys, mode):
         if dtc is None:
             for _, row in flat.iterrows():
                 lab = tuple(row[n] for n in names)
-                lab = tuple(type(F.POOL[k][2][0])(v) for k, v in zip(keys, lab))
+                lab = tuple(_label(k, v) for k, v in zip(keys, lab))
                 if lab in seen:
                     return fail(f"label combination {lab} listed twice")
                 seen[lab] = float(row["value"])
@@ -204,7 +220,7 @@ def run_todf_case(keys, mode):
                 for it in F.POOL[dtc][2]:
                     lab = []
                     for k in keys:
-                        lab.append(it if k == dtc else type(F.POOL[k][2][0])(row[F.POOL[k][0]]))
+                        lab.append(it if k == dtc else _label(k, row[F.POOL[k][0]]))
                     lab = tuple(lab)
                     if lab in seen:
                         return fail(f"label combination {lab} listed twice")
@@ -272,6 +288,27 @@ def run_extra_case(keys, header, i, d, allow_missing, rowindex):
     return "extras-ignored-correctly", None
 
 
+def run_large_case(n, layout):
+    """an array with more than 32767 entries (n x n), long layout, rows rotated"""
+    from flodym import Dimension, DimensionSet, FlodymArray
+
+    case = dict(kind="large", n=n, layout=layout)
+    ds = DimensionSet(dim_list=[Dimension(name="Xdim", letter="x", items=list(range(1000, 1000 + n)), dtype=int), Dimension(name="Zdim", letter="z", items=[f"z{i}" for i in range(n)])])
+    v = (np.arange(float(n * n)).reshape(n, n) * 0.5 + 1.0)
+    a = FlodymArray(dims=ds, values=v)
+    df = a.to_df(index=layout == "index")
+    if layout == "wide":
+        df = a.to_df(dim_to_columns="Zdim")
+    df = df.iloc[list(range(7, len(df))) + list(range(7))]
+    st, back = attempt(lambda: FlodymArray.from_df(dims=ds, df=df))
+    if st == "raised":
+        return "fail", dict(case=case, tags=dict(header="names", kind="large-refused"), what=f"{n}x{n} array ({n*n} entries), layout {layout}: from_df raised {back}")
+    if not np.array_equal(back.values, v):
+        bad = np.argwhere(back.values != v)
+        return "fail", dict(case=case, tags=dict(header="names", kind="large-wrong"), what=f"{n}x{n} array ({n*n} entries), layout {layout}: {len(bad)} entries imported under wrong labels, first {tuple(int(i) for i in bad[0])}: {back.values[tuple(bad[0])]} instead of {v[tuple(bad[0])]}")
+    return "imported-faithfully", None
+
+
 def todf_modes(keys):
     modes = [("long", True, None), ("long", False, None), ("sparse", True, None), ("sparse", False, None)]
     if len(keys) >= 2:
@@ -282,6 +319,16 @@ def todf_modes(keys):
 
 def run_unit(u):
     keys, tier = u["keys"], u["tier"]
+    if u["kind"] == "large":
+        res = dict(evals=0, nontrivial=0, outcomes={}, fails=[], samples=[])
+        for layout in ("columns", "index", "wide"):
+            oc, f = run_large_case(182 if tier == "quick" else 260, layout)
+            res["evals"] += 1
+            res["nontrivial"] += 1
+            res["outcomes"][oc] = res["outcomes"].get(oc, 0) + 1
+            if f:
+                res["fails"].append(f)
+        return res
     n_entries = int(np.prod([len(F.POOL[k][2]) for k in keys]))
     res = dict(evals=0, nontrivial=0, outcomes={}, fails=[], samples=[])
 
@@ -327,6 +374,8 @@ def run_unit(u):
 def replay(case):
     if case["kind"] == "layout":
         oc, f = run_case(case["keys"], case["layout"])
+    elif case["kind"] == "large":
+        oc, f = run_large_case(case["n"], case["layout"])
     elif case["kind"] == "extra":
         oc, f = run_extra_case(case["keys"], case["header"], case["i"], case["d"], case["allow_missing"], case["rowindex"])
     elif case["kind"] == "dup":
